@@ -95,7 +95,15 @@ class JobWorld(World):
         # whole time and the process keeps sleeping, it never makes progress: a livelock, reported as a hang
         self.idle_sleeps = self.__dict__.get('idle_sleeps', 0) + 1
         self.ev('thread::sleep')
-        if self.idle_sleeps > 4 and self.P > 0:
+        waiting = True
+        ss = self.__dict__.get('server_state')
+        if ss is not None:
+            try:
+                tw = state_fields(eng, ss)['token_wakers']
+                waiting = len(getattr(tw, 'items', [1])) > 0       # somebody in this process is waiting for a token
+            except Exception:
+                waiting = True
+        if self.idle_sleeps > 4 and self.P > 0 and waiting:
             raise Hang('thread::sleep %d times in a row without ever selecting on the token pipe, which holds %d token(s)' % (
                 self.idle_sleeps, self.P))
         self.advance(eng, d.f[0])
